@@ -7,6 +7,7 @@ run-time errors are safety obligations.
 from __future__ import annotations
 
 import ast
+import os
 
 import z3
 
@@ -59,7 +60,7 @@ class Contract:
     """sidecar contract of one repository function"""
 
     def __init__(self, target, params=None, returns=None, requires=(), ensures=(), raises=None,
-                 loops=None, locals=None, modifies=(), cut=True, ghosts=None, self_type=None, note=""):
+                 loops=None, locals=None, modifies=(), cut=True, ghosts=None, self_type=None, note="", defs=()):
         self.target = target                  # 'module:qualname'
         self.params = params or {}            # name -> T (symbolic inputs when verified)
         self.returns = returns                # T of the result at cut call sites
@@ -71,6 +72,7 @@ class Contract:
         self.modifies = list(modifies)        # spec expressions denoting SMT lists / ('field', cname, fname)
         self.cut = cut
         self.ghosts = ghosts or {}
+        self.defs = list(defs)                # [(name, expr)] definitional axioms of ghost spec functions / proved lemmas
         self.note = note
 
 
@@ -102,6 +104,7 @@ class Interp(Ops, Builtins, DynOps):
         self.externals = {}        # dotted -> handler(interp, args, kwargs, node) -> Val
         self.ext_attrs = {}        # (tag, attr) -> handler(interp, recv, node) -> Val
         self.spec_funcs = {}       # extra spec functions name -> handler(interp, args, node)
+        self.ghost_env = {}
         self.verifying = None      # fq of the function whose body is being verified
         self.old_state = None
         self.loop_ordinals = {}
@@ -146,6 +149,11 @@ class Interp(Ops, Builtins, DynOps):
     def lookup_name(self, name, frame, node):
         v = frame.lookup(name)
         if v is not None:
+            if v.kind == "maybe":
+                if not self.spec:
+                    self.ctx.oblige(f"safety.local_bound.{name}", v.defined, node)
+                    self.ctx.assume(v.defined)
+                return v.inner
             return v
         r = self.index.resolve_global(frame.module, name)
         v = self.wrap_global(r, frame.module, name, node)
@@ -161,6 +169,13 @@ class Interp(Ops, Builtins, DynOps):
             return VOpaque("ellipsis")
         if self.spec and (name in SPEC_FUNCS or name in self.spec_funcs):
             return VExt("spec." + name)
+        if self.spec and name in self.ghost_env:
+            return self.ghost_env[name]
+        if self.spec:
+            # contracts may name any repository class (enum members, isinstance tests)
+            hits = [m.classes[name] for m in self.index.modules.values() if name in m.classes]
+            if len(hits) == 1:
+                return VClass(hits[0])
         raise EngineError(f"unbound name {name} in {frame.module.name} line {getattr(node, 'lineno', '?')}")
 
     # ================================================================== expressions
@@ -240,18 +255,28 @@ class Interp(Ops, Builtins, DynOps):
     def try_merge(self, thunk):
         """run thunk in no-branch mode; on NeedFork roll back what it emitted and return None"""
         c = self.ctx
-        mark = (len(c.pc), len(c.obligations), c.counter, set(c._seen_obl) if False else None)
+        mark = (len(c.pc), len(c.obligations), dict(c.sheap), c.alloc, list(c.fresh_refs), len(c.written),
+                len(c.subst), set(c.literals), dict(c.cheap), c.next_addr)
         c.no_branch += 1
         try:
             return thunk()
-        except NeedFork:
+        except NeedFork as nf:
+            if os.environ.get("PYVC_TRACE"):
+                print("  needfork:", nf)
+            # roll back everything the attempt did (facts, obligations, allocations, heap stores)
             del c.pc[mark[0]:]
-            for o in c.obligations[mark[1]:]:
-                pass
             del c.obligations[mark[1]:]
+            c.sheap, c.alloc, c.fresh_refs = mark[2], mark[3], mark[4]
+            del c.written[mark[5]:]
+            del c.subst[mark[6]:]
+            c.literals = mark[7]
+            c.cheap = mark[8]
+            c.next_addr = mark[9]
             return None
         finally:
             c.no_branch -= 1
+            if c.no_branch == 0:
+                c.merge_fresh = set()
 
     def ev_BoolOp(self, e, fr):
         is_and = isinstance(e.op, ast.And)
@@ -747,6 +772,8 @@ class Interp(Ops, Builtins, DynOps):
             if f.dotted.startswith("super."):
                 pass
             return self.call_ext(f.dotted, ([f.recv] if f.recv is not None else []) + list(args), kwargs, node)
+        if k == "specfn":
+            return f.fn(self, list(args))
         if k == "lambda":
             lf = Frame(f.module, f.frame.fi, parent=f.frame)
             self.bind_args(f.node.args, args, kwargs, lf, node, "<lambda>")
@@ -945,6 +972,7 @@ class Interp(Ops, Builtins, DynOps):
     def new_slist(self, elem, name):
         r = self.ctx.new_sref(name)
         self.ctx.sheap[("len",)] = z3.Store(self.ctx.len_map(), r, z3.IntVal(0))
+        self.ctx.assume(REF_TYPE(r) == TSList(elem).tag())
         return VSList(r, elem)
 
     def coerce_declared(self, t, v):
@@ -1028,9 +1056,71 @@ class Interp(Ops, Builtins, DynOps):
         else:
             self.setitem(obj, idx, new, s)
 
+    def mergeable_if(self, s):
+        """only simple assignments to local names (and nested ifs of that kind): executed without forking"""
+        def ok_stmt(x):
+            if isinstance(x, ast.Pass):
+                return True
+            if isinstance(x, ast.Expr):
+                return isinstance(x.value, ast.Constant) or (isinstance(x.value, ast.Call) and (self._callee_text(x.value.func) or "").startswith(self.dropped_calls))
+            if isinstance(x, ast.Assign):
+                return all(isinstance(t, ast.Name) for t in x.targets)
+            if isinstance(x, ast.AnnAssign):
+                return isinstance(x.target, ast.Name)
+            if isinstance(x, ast.AugAssign):
+                return isinstance(x.target, ast.Name) and not isinstance(x.op, ast.Add) or (isinstance(x.target, ast.Name) and isinstance(x.value, ast.Constant))
+            if isinstance(x, ast.If):
+                return all(ok_stmt(y) for y in x.body + x.orelse)
+            return False
+        return all(ok_stmt(y) for y in s.body + s.orelse)
+
+    def exec_if_merged(self, s, fr, c):
+        v0 = dict(fr.vars)
+        try:
+            self.guarded(c, lambda: self.exec_block(s.body, fr))
+            v1 = dict(fr.vars)
+            fr.vars.clear()
+            fr.vars.update(v0)
+            self.guarded(z3.Not(c), lambda: self.exec_block(s.orelse, fr))
+            v2 = dict(fr.vars)
+            out = dict(v0)
+            for nm in set(v1) | set(v2):
+                a, b = v1.get(nm), v2.get(nm)
+                if a is None or b is None:
+                    # bound on one branch only: usable later only where that branch was taken (checked at the use)
+                    x, cx = (a, c) if b is None else (b, z3.Not(c))
+                    if x.kind == "maybe":
+                        x, cx = x.inner, z3.And(cx, x.defined)
+                    out[nm] = VMaybe(cx, x)
+                    continue
+                if a.kind == "maybe" or b.kind == "maybe":
+                    da = a.defined if a.kind == "maybe" else z3.BoolVal(True)
+                    db = b.defined if b.kind == "maybe" else z3.BoolVal(True)
+                    ia = a.inner if a.kind == "maybe" else a
+                    ib = b.inner if b.kind == "maybe" else b
+                    out[nm] = VMaybe(z3.If(c, da, db), ia if ia is ib else self.merge(c, ia, ib))
+                    continue
+                out[nm] = a if a is b else self.merge(c, a, b)
+        except NeedFork:
+            fr.vars.clear()
+            fr.vars.update(v0)
+            raise
+        fr.vars.clear()
+        fr.vars.update(out)
+        return True
+
     def st_If(self, s, fr):
         cv = self.ev(s.test, fr)
-        if self.ctx.branch(self.truth(cv, s.test), f"if@{s.lineno}"):
+        c0 = z3.simplify(self.truth(cv, s.test))
+        if not z3.is_true(c0) and not z3.is_false(c0) and not self.spec and self.mergeable_if(s):
+            if self.ctx.no_branch:
+                self.exec_if_merged(s, fr, c0)
+                return
+            if self.try_merge(lambda: self.exec_if_merged(s, fr, c0)):
+                self.cover(s, "T")
+                self.cover(s, "F")
+                return
+        if self.ctx.branch(c0, f"if@{s.lineno}"):
             self.cover(s, "T")
             self.exec_block(s.body, fr)
         else:
@@ -1306,7 +1396,7 @@ class Interp(Ops, Builtins, DynOps):
                 var = e.args[0].id
                 lo = to_int_z(self.ev(e.args[1], fr))
                 hi = to_int_z(self.ev(e.args[2], fr))
-                kz = ctx.fresh(var, I)
+                kz = ctx.bound(var)
                 qf = Frame(fr.module, fr.fi, parent=fr)
                 qf.vars[var] = VInt(kz)
                 rng = z3.And(lo <= kz, kz < hi)
